@@ -4,6 +4,7 @@ package vc
 // loops cut at their headers.
 
 import (
+	"os"
 	"fmt"
 	"go/constant"
 	"go/token"
@@ -13,6 +14,10 @@ import (
 
 	"golang.org/x/tools/go/ssa"
 )
+
+// BlockCovers: generate an advisory reachability cover for the end of every basic block of the
+// functions under contract (thorough tier and development runs)
+var BlockCovers = os.Getenv("GOVC_BLOCKCOVERS") != ""
 
 type retPoint struct {
 	cur     string
@@ -297,6 +302,15 @@ func (fr *frame) run(params, free []Val, st0 *state, cur0 string) {
 				continue
 			}
 			fr.instr(ins)
+		}
+		if BlockCovers && fr.top && fr.depth == 0 && len(b.Instrs) > 0 {
+			// advisory: the end of this block is reachable under everything assumed so far (an
+			// unreachable one is dead code or the trace of contradictory assumptions, e.g. a callee
+			// contract that forgets an allocation)
+			if o := u.addObl("cover.block", fmt.Sprintf("the end of block %d is reachable (advisory)", b.Index), fr.u.eng.pos(firstPos(b)), "true", fr.cur); o != nil {
+				o.Cover = true
+				o.Advisory = true
+			}
 		}
 		fr.out[b] = fr.st
 		fr.outCur[b] = fr.cur
